@@ -97,6 +97,46 @@ func BuildScaled(fam, unit string, size, n int, tiff []byte) ([]byte, string) {
 		out := append(ftyp, meta...)
 		out = append(out, Box("mdat", make([]byte, 64))...)
 		return out, "avif"
+	case "bmff/ilocMax", "bmff/iinfMax":
+		ftyp := Ftyp("avif", "mif1", "avif")
+		hdlr := FullBox("hdlr", 0, 0, u32(0), []byte("pict"), make([]byte, 12), []byte{0})
+		pitm := FullBox("pitm", 0, 0, u16(1))
+		var boxes []byte
+		for i := 0; i < n; i++ {
+			if unit == "ilocMax" {
+				boxes = append(boxes, FullBox("iloc", 0, 0, []byte{0x44, 0x00}, u16(65535))...)
+			} else {
+				boxes = append(boxes, FullBox("iinf", 0, 0, u16(65535))...)
+			}
+		}
+		out := append(ftyp, FullBox("meta", 0, 0, hdlr, pitm, boxes)...)
+		return append(out, Box("mdat", make([]byte, 64))...), "avif"
+	case "bmff/cmtAscii4097":
+		// n CMT1 boxes; each holds a directory of 84 text entries (Artist, Copyright, Software, ImageDescription, Make, Model in turn)
+		// that all declare 4097 bytes (overlapping values inside the box)
+		le := binary.LittleEndian
+		dir := []byte("II*\x00\x08\x00\x00\x00")
+		dir = append(dir, 84, 0)
+		ids := []uint16{0x010e, 0x010f, 0x0110, 0x0131, 0x013b, 0x8298}
+		for i := 0; i < 84; i++ {
+			e := make([]byte, 12)
+			le.PutUint16(e, ids[i%len(ids)])
+			le.PutUint16(e[2:], 2)
+			le.PutUint32(e[4:], 4097)
+			le.PutUint32(e[8:], uint32(1030+i)) // overlapping values, all inside the box
+			dir = append(dir, e...)
+		}
+		dir = append(dir, 0, 0, 0, 0)
+		dir = append(dir, bytes.Repeat([]byte("v"), 5300-len(dir))...)
+		out := Ftyp("crx ", "crx ", "isom")
+		var meta []byte
+		meta = append(meta, CR3MetaUUID...)
+		meta = append(meta, Box("CNCV", []byte("CanonCR3_001/00.09.00/00.00.00"))...)
+		for i := 0; i < n; i++ {
+			meta = append(meta, Box("CMT1", dir)...)
+		}
+		out = append(out, Box("moov", Box("uuid", meta))...)
+		return append(out, Box("mdat", make([]byte, 64))...), "cr3"
 	case "bmff/topFree", "bmff/moovKid", "bmff/bigFree", "bmff/bigCmt":
 		out := Ftyp("crx ", "crx ", "isom")
 		free := Box("free", make([]byte, 8))
